@@ -19,6 +19,12 @@ theorem lift_ok {α} (a : α) : (M.lift (.ok a) : M α) = M.ok a := rfl
 theorem okOpt_some {α} {x : Except Err α} {a : α} (h : okOpt x = some a) : x = .ok a := by
   cases x <;> simp_all [okOpt]
 
+theorem constResult_some {g : Guards} {r : Option Val} {v : Val} (h : constResult g r = some v) : r = some v := by
+  unfold constResult at h
+  split at h
+  · split at h <;> simp_all
+  · simp at h
+
 theorem pyGetattr_ctx (ctx : Ctx) (v : Val) (a : String) (h : isObj v = false) :
     pyGetattr ctx v a = pyGetattr emptyCtx v a := by
   cases v <;> simp_all [pyGetattr, isObj]
